@@ -189,6 +189,7 @@ def dns_d_streams(rng, n, tier):
 
 class C02(Prop):
     pid = "C02"
+    panic_neutral = True
 
     def streams(self, tier, rng):
         n = 600 if tier == "quick" else 6000
@@ -202,7 +203,7 @@ class C02(Prop):
     def view(self, case, line):
         d = parse_d(line)
         if d["status"] != "OK":
-            return d["status"]
+            return "NOT-ACCEPTED"
         return "OK reenc=%s d2=%s" % ("ERR" if d["reenc"].startswith("ERR") else "bytes", d["d2"].split(":")[0])
 
     def nontrivial(self, case, line):
@@ -210,10 +211,8 @@ class C02(Prop):
 
     def oracle(self, case, line):
         d = parse_d(line)
-        if d["status"] == "PANIC":
-            return "implementation panicked: " + line[:200]
         if d["status"] != "OK":
-            return None
+            return None      # a panic while decoding is C01's subject, not a round-trip failure
         size = R.uncompressed_size(R.parse_canon(d["canon"]))
         if size > 65535:
             return None
@@ -269,6 +268,7 @@ def overaccept_cases(rng):
 
 class C03(Prop):
     pid = "C03"
+    panic_neutral = True
 
     def streams(self, tier, rng):
         n = 600 if tier == "quick" else 6000
@@ -286,6 +286,8 @@ class C03(Prop):
         return s
 
     def agree(self, case, il, ml):
+        if il.startswith("PANIC"):
+            return True
         if case.startswith("W "):
             # one-sided: library accepts => the Coq reference decoder accepts with the same value
             return (not il.startswith("OK ")) or il == ml
@@ -296,7 +298,7 @@ class C03(Prop):
             return line
         d = parse_d(line)
         if d["status"] != "OK":
-            return d["status"]
+            return "NOT-ACCEPTED"
         return "OK %s acc=%s" % (d["canon"], d["acc"])
 
     def nontrivial(self, case, line):
@@ -304,12 +306,10 @@ class C03(Prop):
 
     def oracle(self, case, line):
         if case.startswith("W "):
-            return "implementation panicked: " + line[:200] if line.startswith("PANIC") else None
-        d = parse_d(line)
-        if d["status"] == "PANIC":
-            return "implementation panicked: " + line[:200]
-        if d["status"] != "OK":
             return None
+        d = parse_d(line)
+        if d["status"] != "OK":
+            return None      # C03 is one-sided: only accepted inputs are judged (a panic is C01's subject)
         e, w = case_wire(case)
         r = R.ref_decode(e, w)
         if r[0] != "OK":
@@ -691,6 +691,7 @@ COST_C = 544
 
 class C07(Prop):
     pid = "C07"
+    panic_neutral = True
 
     def streams(self, tier, rng):
         graphs = []
@@ -739,6 +740,8 @@ class C07(Prop):
         d = parse_d(line)
         if d["status"] == "OK":
             return "OK cost=%d" % d["cost"]
+        if d["status"] == "PANIC":
+            return "PANIC-BUDGET" if "octet budget exceeded" in line else "ERR"
         if d["status"] == "ERR":
             e = d["err"]
             if e.startswith("MaxRecursion") or e.startswith("EndlessRecursion") or "DomainNameLength" in e:
@@ -752,7 +755,9 @@ class C07(Prop):
     def oracle(self, case, line):
         d = parse_d(line)
         if d["status"] == "PANIC":
-            return "implementation panicked or exceeded the octet budget: " + line[:200]
+            if "octet budget exceeded" in line:
+                return "decoder exceeded the octet budget (loop or super-linear work): " + line[:200]
+            return None      # any other panic is C01's subject
         if d["status"] == "OTHER":
             return None
         e, w = case_wire(case)
@@ -783,6 +788,7 @@ class C07(Prop):
 
 class C09(Prop):
     pid = "C09"
+    panic_neutral = True
 
     def streams(self, tier, rng):
         n = 300 if tier == "quick" else 3000
@@ -809,18 +815,16 @@ class C09(Prop):
             e = d["err"]
             if e.split(" ")[0] in ("NotEnoughBytes", "TooManyBytes", "RemainingBytes"):
                 return "ERR " + e
-            return "ERR"
-        return d["status"]
+            return "NOT-ACCEPTED"
+        return "NOT-ACCEPTED"
 
     def nontrivial(self, case, line):
         return True
 
     def oracle(self, case, line):
         d = parse_d(line)
-        if d["status"] == "PANIC":
-            return "implementation panicked: " + line[:200]
         if d["status"] != "OK":
-            return None
+            return None      # only accepted inputs are judged (a panic is C01's subject)
         e, w = case_wire(case)
         r = R.ref_decode(e, w)
         if r[0] != "OK":
